@@ -1,2 +1,137 @@
-(* Properties/C15.v — property theorems only. (stub) *)
+(* Properties/C15.v — The trie behaves as a set of sequences under any history of
+   updates.  Only statements; every proof is [exact <lemma>].
+   Model: Model/Trie.v (Add, Has, Delete with its stack and prune loops, the
+   explicit-stack ForEach, the JSON object tree).  Reference: Spec/TrieSpec.v
+   (the set M with spec_add / spec_delete / spec_has, and [members], the
+   root-to-leaf paths of a trie). *)
+From Coq Require Import String Sorting.Sorted Permutation.
 From Bio Require Import Base.
+From Bio.Model Require Import Trie.
+From Bio.Spec Require Import TrieSpec.
+From Bio.Proofs Require Import TrieProofs TrieProofsB TrieProofsC.
+
+(* After ANY history of Add and Delete calls from New(): the trie is well formed,
+   its members are exactly the reference set M of the property text (both lists
+   are duplicate free, so "same set" is "equal up to order"), and every Delete
+   returned what the reference says (whether a member had the prefix).  No bound
+   on the length of the history, of the sequences, or on the byte values. *)
+Theorem C15_refines : forall ops,
+  wf (fst (run ops empty)) /\
+  Permutation (members (fst (run ops empty))) (fst (spec_run ops [])) /\
+  NoDup (members (fst (run ops empty))) /\
+  snd (run ops empty) = snd (spec_run ops []).
+Proof. exact trie_refines. Qed.
+Print Assumptions C15_refines.
+
+(* The history is the fold of the single calls. *)
+Theorem C15_run_is_fold : forall ops t,
+  fst (run ops t) = fold_left (fun t o => fst (apply_op o t)) ops t.
+Proof. exact run_fold. Qed.
+Print Assumptions C15_run_is_fold.
+
+(* The step lemmas, for any well-formed trie (not only reachable ones). *)
+Theorem C15_add_step : forall b t, wf t ->
+  forall x, In x (members (add b t)) <-> In x (spec_add b (members t)).
+Proof. exact add_refines. Qed.
+Print Assumptions C15_add_step.
+
+Theorem C15_delete_step : forall b t, wf t ->
+  wf (fst (delete b t)) /\
+  (forall x, In x (members (fst (delete b t))) <-> In x (fst (spec_delete b (members t)))) /\
+  snd (delete b t) = snd (spec_delete b (members t)).
+Proof. exact delete_refines. Qed.
+Print Assumptions C15_delete_step.
+
+(* Delete's two loops (path stack, prune upwards until a node keeps other
+   children) compute: nothing and false if the path is absent; otherwise true and
+   the recursive deletion [rdel] — and nothing at all for the empty sequence. *)
+Theorem C15_delete_loops : forall b t,
+  delete b t =
+  if has b t then (match b with
+                   | [] => t
+                   | _ => match rdel b t with Some t' => t' | None => t end
+                   end, true)
+  else (t, false).
+Proof. exact delete_eq. Qed.
+Print Assumptions C15_delete_loops.
+
+(* Has(x) is true exactly when x is empty or a prefix of a member. *)
+Theorem C15_has_spec : forall t x, wf t ->
+  (has x t = true <-> x = [] \/ exists m, In m (members t) /\ prefix x m).
+Proof. exact has_spec. Qed.
+Print Assumptions C15_has_spec.
+
+Theorem C15_has_after_history : forall ops x,
+  has x (fst (run ops empty)) = spec_has (fst (spec_run ops [])) x.
+Proof. exact has_after_history. Qed.
+Print Assumptions C15_has_after_history.
+
+(* ForEach (explicit stack, fuel 2*size): never runs out of fuel, and reports every
+   member exactly once and nothing else. *)
+Theorem C15_for_each_exact : forall t, wf t ->
+  exists l, for_each t = Ok l /\ Permutation l (members t) /\ NoDup l.
+Proof. exact for_each_exact. Qed.
+Print Assumptions C15_for_each_exact.
+
+Theorem C15_for_each_after_history : forall ops,
+  exists l, for_each (fst (run ops empty)) = Ok l /\
+            Permutation l (fst (spec_run ops [])) /\ NoDup l.
+Proof. exact for_each_after_history. Qed.
+Print Assumptions C15_for_each_after_history.
+
+(* A callback that returns false at its p-th call (p >= 1) stops the traversal:
+   it has then been called on p distinct members (on all of them if there are
+   fewer than p), the first p of the traversal order. *)
+Theorem C15_for_each_stop : forall p, p <> 0%nat -> forall t,
+  for_each_until p t = Ok (firstn p (members t)).
+Proof. exact for_each_until_firstn. Qed.
+Print Assumptions C15_for_each_stop.
+
+(* A trie rebuilt from its JSON form (the object tree {"m":{"<decimal key>":...}};
+   the text is encoding/json's) IS the original, hence indistinguishable by any
+   further Has / ForEach / Add / Delete.  Keys must be bytes for their decimal
+   text to be read back by ParseUint(…, 8). *)
+Theorem C15_json_roundtrip : forall t, wf t -> byte_keys t -> of_json (to_json t) = Some t.
+Proof. exact json_roundtrip. Qed.
+Print Assumptions C15_json_roundtrip.
+
+Theorem C15_json_roundtrip_after_history : forall ops, ops_are_bytes ops ->
+  of_json (to_json (fst (run ops empty))) = Some (fst (run ops empty)).
+Proof. exact json_roundtrip_run. Qed.
+Print Assumptions C15_json_roundtrip_after_history.
+
+(* Non-vacuity: a history with an effective Add, an absorbing Add, a Delete that
+   prunes up to a node that keeps a sibling, a Delete of an absent sequence and
+   a Delete of the empty sequence. *)
+Definition C15_example_ops : list op :=
+  [ OAdd (bs "ab"); OAdd (bs "abc"); OAdd (bs "abd"); OAdd (bs "ax"); OAdd (bs "a");
+    ODel (bs "abc"); ODel (bs "q"); ODel []; ODel (bs "ab"); OAdd (bs "b") ].
+
+Example C15_example :
+  ops_are_bytes C15_example_ops
+  /\ run C15_example_ops empty =
+       (T [(97, T [(120, T [])]); (98, T [])],
+        [None; None; None; None; None; Some true; Some false; Some true; Some true; None])
+  /\ spec_run C15_example_ops [] =
+       ([bs "b"; bs "ax"],
+        [None; None; None; None; None; Some true; Some false; Some true; Some true; None])
+  /\ for_each (fst (run C15_example_ops empty)) = Ok [bs "ax"; bs "b"]
+  /\ for_each_until 1 (fst (run C15_example_ops empty)) = Ok [bs "ax"]
+  /\ has (bs "a") (fst (run C15_example_ops empty)) = true
+  /\ has (bs "ab") (fst (run C15_example_ops empty)) = false
+  /\ wf (T [(97, T [(120, T [])]); (98, T [])])
+  /\ byte_keys (T [(97, T [(120, T [])]); (98, T [])]).
+Proof.
+  split; [repeat constructor|].
+  split; [vm_compute; reflexivity|].
+  split; [vm_compute; reflexivity|].
+  split; [vm_compute; reflexivity|].
+  split; [vm_compute; reflexivity|].
+  split; [vm_compute; reflexivity|].
+  split; [vm_compute; reflexivity|].
+  split.
+  - change (T [(97, T [(120, T [])]); (98, T [])]) with (fst (run C15_example_ops empty)).
+    apply trie_refines.
+  - change (T [(97, T [(120, T [])]); (98, T [])]) with (fst (run C15_example_ops empty)).
+    apply byte_keys_run; [repeat constructor | apply byte_keys_empty].
+Qed.
